@@ -19,7 +19,9 @@ theorem wPaths_fact : Accepted wPaths ∧
       "a_b_c_num_in_group", "a_b_c_d_num_in_group_1"]) ∈ paramLists wPaths := by
   refine ⟨?_, ?_⟩ <;> decide +kernel
 
-theorem wValueRef_fact : Accepted wValueRef ∧ missingIncludes wValueRef wValueRef.messages.head! = ["E"] := by
-  refine ⟨?_, ?_⟩ <;> decide +kernel
+/-- the former include defect: the message file now includes the enum of the constant's `valueRef` -/
+theorem wValueRef_fact : Accepted wValueRef ∧ missingIncludes wValueRef wValueRef.messages.head! = [] ∧
+    messageIncludes wValueRef wValueRef.messages.head! = ["messageHeader", "E"] := by
+  refine ⟨?_, ?_, ?_⟩ <;> decide +kernel
 
 end Sbepp.Properties.C07
